@@ -160,6 +160,19 @@ Proof.
 Qed.
 Print Assumptions C27_u256_ops_correct.
 
+(* U128 + - * after disable_panic_on_overflow() (F_WRAPPING set, unsafe-math panics still on): modular results;
+   the only revert left is multiply's assert that one upper limb is zero (it is guarded by the unsafe-math flag) *)
+Theorem C27_u128_wrapping_correct : forall a b, wf a -> wf b ->
+  u128_add (wrap_on default_flags) a b = Ret (split ((val a + val b) mod 2 ^ 128)) /\
+  u128_sub (wrap_on default_flags) a b = Ret (split ((2 ^ 128 + val a - val b) mod 2 ^ 128)) /\
+  u128_mul (wrap_on default_flags) a b =
+    (if negb (up a =? 0) && negb (up b =? 0) then Rev FAILED_ASSERT_SIGNAL
+     else Ret (split ((val a * val b) mod 2 ^ 128))).
+Proof.
+  intros a b Ha Hb. split; [apply u128_add_wrapping; assumption | split; [apply u128_sub_wrapping; assumption | apply u128_mul_wrapping; assumption]].
+Qed.
+Print Assumptions C27_u128_wrapping_correct.
+
 (* u256 << >> (WQOP shl/shr: bits fall off, never a panic) and wrapping_add/sub/mul (F_WRAPPING set): modular *)
 Theorem C27_u256_shifts_correct : forall a s, a < 2 ^ 256 ->
   u256_lsh default_flags a s = Ret ((a * 2 ^ s) mod 2 ^ 256) /\
